@@ -478,3 +478,44 @@ def render(e, depth=0):
     if "mac_src" in e:
         return e["mac_src"][:60]
     return "<%s>" % k
+
+
+# ------------------------------------------------------------------ locals by role (so that renaming a local changes nothing)
+def _root_local(e):
+    e = strip(e)
+    while e.get("k") in ("Field", "Index", "MethodCall"):
+        e = strip(e["e"] if e.get("k") in ("Field", "Index") else e["recv"])
+    return e if e.get("k") == "Path" and e.get("res", {}).get("r") == "local" else None
+
+
+def local_name_of_arg(body, callee_suffix, idx, default=None):
+    """name of the local handed (possibly borrowed / cloned / through a field) as argument #idx to the unique call of a function"""
+    cs = calls(body, callee_suffix)
+    if len(cs) != 1:
+        return default
+    c = cs[0]
+    args = ([c["recv"]] + list(c.get("args", []))) if c.get("k") == "MethodCall" else list(c.get("args", []))
+    if idx >= len(args):
+        return default
+    r = _root_local(args[idx])
+    return (local_of(r) or default) if r is not None else default
+
+
+def local_name_of_field(body, adt_last, field, default=None):
+    """name of the local a field of the unique struct literal of that type is initialised from"""
+    sts = [n for n in nodes(body, "Struct") if last(n.get("res", {}).get("adt", "")) == adt_last]
+    if len(sts) != 1:
+        return default
+    for f in sts[0]["fields"]:
+        if f["name"] == field:
+            r = _root_local(f["e"])
+            return (local_of(r) or default) if r is not None else default
+    return default
+
+
+def local_name_of_let_with_call(body, callee_suffix, default=None):
+    """name of the local bound by the `let` whose initialiser contains the unique call of a function"""
+    for n in walk(body):
+        if n.get("k") == "LetStmt" and "init" in n and n["pat"].get("p") == "Bind" and calls(n["init"], callee_suffix):
+            return n["pat"].get("name", default)
+    return default
